@@ -105,8 +105,9 @@ struct Variant {
 
 /// Option sets of a run: 0 default, 1 a subset in two populations (order unlike the column order),
 /// 2 --strict, 3 projection of everybody, 4 subset + projection, 5 subset + --strict, 6 and 7 the two
-/// projections printed with 17 decimals (every bit of the sums shows).
-const N_CONFIGS: usize = 8;
+/// projections printed with 17 decimals (every bit of the sums shows), 8 the subset with one of its
+/// entries given twice (accepted or refused, but the same way by every variant and repetition).
+const N_CONFIGS: usize = 9;
 
 fn config_args(config: usize, n_samples: usize) -> Vec<String> {
     let list = if n_samples >= 5 {
@@ -133,6 +134,10 @@ fn config_args(config: usize, n_samples: usize) -> Vec<String> {
             a
         }
         6 => vec!["-p".into(), (n_samples / 3).max(1).to_string(), "--precision".into(), "17".into()],
+        8 => {
+            let first = list.split(',').next().unwrap();
+            vec!["-s".into(), format!("{list},{first}")]
+        }
         _ => {
             let mut a = subset();
             a.extend(["-p".to_string(), "1,1".to_string(), "--precision".to_string(), "17".to_string()]);
@@ -204,7 +209,10 @@ pub fn run(tier: Tier) -> i32 {
     let mut variants: Vec<Variant> = Vec::new();
     for (si, _) in sets.iter().enumerate() {
         let is_big = si == big_idx;
-        for container in Container::all() {
+        for container in Container::all_with_versions() {
+            if is_big && matches!(container, Container::BcfMinor1 | Container::RawBcfMinor1) {
+                continue;
+            }
             let layouts: Vec<Layout> = if !container.compressed() {
                 vec![Layout::Single]
             } else if is_big {
@@ -261,7 +269,7 @@ pub fn run(tier: Tier) -> i32 {
     for (si, outs) in canon.iter().enumerate() {
         for (config, o) in outs.iter().enumerate() {
             // a strict run fails on a call set with skipped sites; every variant must then fail alike
-            let strict = config == 2 || config == 5;
+            let strict = config == 2 || config == 5 || config == 8;
             if strict && !o.ok() && o.stdout.is_empty() && o.diagnosed_error() {
                 continue;
             }
@@ -732,7 +740,7 @@ pub fn replay(case: &J) -> Option<Vec<String>> {
     let set_name = case.get("call_set").and_then(|s| s.as_str()).unwrap_or(smalls[1].0).to_string();
     let cs: &CallSet = if set_name == "big-2600-records" { &big } else { &smalls.iter().find(|(n, _)| *n == set_name)?.1 };
     let cname = case.get("container")?.as_str()?;
-    let container = Container::all().into_iter().find(|c| c.name() == cname)?;
+    let container = Container::all_with_versions().into_iter().find(|c| c.name() == cname)?;
     let canon = |config: usize| {
         let v = Variant { set: 0, container: Container::Vcf, layout: Layout::Single, stdin: false, threads: 1, config, rep: 0 };
         run_variant(&v, &render(cs, Container::Vcf, &Layout::Single), cs.samples.len(), &scratch)
